@@ -71,6 +71,9 @@ func runC18(w *World, r *Report) {
 	hrAllLocksReleased(w, r, la, "R1", "lunar/")
 	hrDeepCopyAlwaysCopies(w, r, "R2")
 	hrExpireRearmed(w, r, "R2")
+	hrLimiterSharesItsVacuumsLock(w, r, "R1")
+	// the vacuums of the policies accessor are built with the retention period and the tick in their places (C11.R4)
+	r.Borrow(w, runC11, map[string]string{"R4": "R1"})
 	hrCfgIdentifiers(w, r, "R6")
 	hrGlobalRegistryUnderItsLock(w, r, la, "R1")
 	hrQueuedRequestIdentity(w, r, "R6")
